@@ -83,7 +83,9 @@ def decode(text):
             out.append(chr(cp)); i = m.end(); continue
         if ch in '<"' or not xml_char(ord(ch)):
             return None
-        out.append(ch); i += 1
+        # attribute-value normalisation (XML 1.0 3.3.3): a literal TAB, LF or CR comes back as a space, so these
+        # characters survive only when written as character references
+        out.append(' ' if ch in '\t\n\r' else ch); i += 1
     return ''.join(out)
 KNOWN = %r
 bad = []
